@@ -13,6 +13,9 @@ import Mathlib.Algebra.Order.Field.Basic
 import ChemModel.Model.KinUnits
 import ChemModel.Proofs.Units
 import ChemModel.Proofs.UnitsHelpers
+import ChemModel.Proofs.Kinetics
+import Mathlib.Data.List.Perm.Subperm
+import Mathlib.Data.List.Range
 
 set_option linter.unusedSectionVars false
 set_option linter.unusedSimpArgs false
@@ -345,16 +348,7 @@ theorem dedimArgs_spec (reg : Registry α) (hreg : RegistryWF reg) (ks : List (P
     obtain ⟨U, hU, hw, hd, hs, _⟩ := dedimArg_spec reg hreg k (hk k (by simp))
     exact ⟨(U, k.si / regProd reg k.dims) :: kus, by simp [dedimArgs, hU, h1], by simp [h2], List.Forall₂.cons ⟨hw, hd, hs⟩ h3⟩
 
-/-! ### mass action is homogeneous -/
-
-theorem activeConcProd_eq (cs : List (α × ℕ)) : activeConcProd cs = (cs.map fun p => p.1 ^ p.2).prod := by
-  have hf : (fun (acc : α) (cv : α × ℕ) => acc * zpow cv.1 (cv.2 : ℤ)) = fun acc cv => acc * cv.1 ^ cv.2 := by
-    funext acc cv; simp [zpow_eq]
-  have : ∀ acc : α, cs.foldl (fun acc cv => acc * cv.1 ^ cv.2) acc = acc * (cs.map fun p => p.1 ^ p.2).prod := by
-    induction cs with
-    | nil => simp
-    | cons c r ih => intro acc; simp only [List.foldl_cons, ih, List.map_cons, List.prod_cons, mul_assoc]
-  simp only [activeConcProd, hf, this]; simp
+/-! ### generic helpers -/
 
 theorem prod_div_pow (cs : List (α × ℕ)) (c : α) :
     ((cs.map fun p => (p.1 / c, p.2)).map fun p => p.1 ^ p.2).prod = (cs.map fun p => p.1 ^ p.2).prod / c ^ (cs.map (·.2)).sum := by
@@ -364,126 +358,173 @@ theorem prod_div_pow (cs : List (α × ℕ)) (c : α) :
     simp only [List.map_cons, List.prod_cons, List.sum_cons, ih, div_pow, pow_add]
     rw [div_mul_div_comm]
 
-theorem massActionRate_scale (k u c : α) (cs : List (α × ℕ)) :
-    massActionRate (k / u) (cs.map fun p => (p.1 / c, p.2)) = massActionRate k cs / (u * c ^ (cs.map (·.2)).sum) := by
-  simp only [massActionRate, activeConcProd_eq, prod_div_pow]
-  rw [div_mul_div_comm]
-
-theorem lookupConcs_map {β γ : Type} (h : β → γ) (y : List β) (reac : List (ℕ × ℕ)) :
-    lookupConcs (y.map h) reac = (lookupConcs y reac).map (List.map fun p => (h p.1, p.2)) := by
-  induction reac with
-  | nil => rfl
-  | cons p r ih =>
-    obtain ⟨i, n⟩ := p
-    simp only [lookupConcs, List.getElem?_map, ih]
-    cases y[i]? with
-    | none => rfl
-    | some c => cases lookupConcs y r <;> rfl
-
-theorem lookupConcs_coeffs {β : Type} (y : List β) (reac : List (ℕ × ℕ)) (cs : List (β × ℕ))
-    (h : lookupConcs y reac = .ok cs) : cs.map (·.2) = reac.map (·.2) := by
-  induction reac generalizing cs with
-  | nil => simp [lookupConcs] at h; subst h; rfl
-  | cons p r ih =>
-    obtain ⟨i, n⟩ := p
-    simp only [lookupConcs] at h
-    cases hy : y[i]? with
-    | none => simp [hy] at h
-    | some c =>
-      cases hr : lookupConcs y r with
-      | error e => simp [hy, hr] at h
-      | ok cs' =>
-        simp [hy, hr] at h; subst h
-        simp [ih cs' hr]
-
-theorem mapExcept_map_rel {β β' γ γ' : Type} (f : β → Except Err γ) (g : β' → Except Err γ') (φ : β' → β) (ψ : γ' → γ)
-    (l : List β') (h : ∀ a ∈ l, f (φ a) = (g a).map ψ) :
-    mapExcept f (l.map φ) = (mapExcept g l).map (List.map ψ) := by
-  induction l with
-  | nil => rfl
-  | cons a r ih =>
-    have ha := h a (by simp)
-    have hr := ih (fun b hb => h b (by simp [hb]))
-    simp only [List.map_cons, mapExcept, ha, hr]
-    cases g a with
-    | error e => rfl
-    | ok x => cases mapExcept g r <;> rfl
-
-theorem dCdt_scale (rs : List α) (rxns : List Rxn) (s : ℕ) (c : α) :
-    dCdt (rs.map (· * c)) rxns s = dCdt rs rxns s * c := by
-  have : ∀ (rxns : List Rxn) (acc : α),
-      ((rs.map (· * c)).zip rxns).foldl (fun acc rr => acc + Num.ofInt (rr.2.net.getD s 0) * rr.1) (acc * c) =
-      (rs.zip rxns).foldl (fun acc rr => acc + Num.ofInt (rr.2.net.getD s 0) * rr.1) acc * c := by
-    induction rs with
-    | nil => intro rxns acc; simp
-    | cons r rest ih =>
-      intro rxns acc
-      cases rxns with
-      | nil => simp
-      | cons x xs =>
-        simp only [List.map_cons, List.zip_cons_cons, List.foldl_cons]
-        rw [← ih xs]; congr 1; ring
-  have h0 := this rxns 0
-  simpa [dCdt] using h0
-
-
-theorem mapExcept_map {β β' γ : Type} (f : β → Except Err γ) (φ : β' → β) (l : List β') :
-    mapExcept f (l.map φ) = mapExcept (fun a => f (φ a)) l := by
-  induction l with
-  | nil => rfl
-  | cons a r ih => simp only [List.map_cons, mapExcept, ih]
-
-theorem mapExcept_rel {β γ γ' : Type} (f : β → Except Err γ) (g : β → Except Err γ') (ψ : γ' → γ)
-    (l : List β) (h : ∀ a ∈ l, f a = (g a).map ψ) :
-    mapExcept f l = (mapExcept g l).map (List.map ψ) := by
-  have := mapExcept_map_rel f g id ψ l (by simpa using h)
-  simpa using this
-
 /-- `C^(1-n)/T · C^n = C/T`: the registry's rate-constant unit times `conc_unit^order` is `conc_unit/time_unit` -/
-theorem unit_algebra (C T : α) (hC : C ≠ 0) (hT : T ≠ 0) (n : ℕ) :
+theorem unit_algebra (C T : α) (hC : C ≠ 0) (n : ℕ) :
     (C ^ (1 - (n : ℤ)) / T * C ^ n)⁻¹ = T / C := by
   have : C ^ (1 - (n : ℤ)) * C ^ n = C := by
     rw [← zpow_natCast C n, ← zpow_add₀ hC]; simp
   rw [div_mul_eq_mul_div, this, inv_div]
 
-/-- one reaction: the unitless rate in registry units is the SI rate times `time_unit / conc_unit` -/
-theorem rate_scale (reg : Registry α) (hreg : RegistryWF reg) (k : PyVal α) (r : Rxn)
+
+/-! ### the shared kinetics model is homogeneous -/
+
+/-- multiply every value of a rate dictionary by `c` -/
+def scaleV (c : α) (d : List (ℕ × α)) : List (ℕ × α) := d.map fun p => (p.1, p.2 * c)
+
+theorem dset_scaleV (c : α) (d : List (ℕ × α)) (k : ℕ) (v : α) :
+    Kinetics.dset (scaleV c d) k (v * c) = scaleV c (Kinetics.dset d k v) := by
+  induction d with
+  | nil => rfl
+  | cons p t ih =>
+    obtain ⟨k', v'⟩ := p
+    by_cases h : k' = k
+    · simp [scaleV, Kinetics.dset, h]
+    · simp only [scaleV, List.map_cons, Kinetics.dset, h, if_false] at ih ⊢
+      rw [ih]
+
+theorem dacc_scaleV (c : α) (d : List (ℕ × α)) (k : ℕ) (v : α) :
+    Kinetics.dacc (scaleV c d) k (v * c) = scaleV c (Kinetics.dacc d k v) := by
+  induction d with
+  | nil => rfl
+  | cons p t ih =>
+    obtain ⟨k', v'⟩ := p
+    by_cases h : k' = k
+    · simp [scaleV, Kinetics.dacc, h, add_mul]
+    · simp only [scaleV, List.map_cons, Kinetics.dacc, h, if_false] at ih ⊢
+      rw [ih]
+
+theorem dictOf_scaleV (c : α) (pairs : List (ℕ × α)) :
+    Kinetics.dictOf (pairs.map fun p => (p.1, p.2 * c)) = scaleV c (Kinetics.dictOf pairs) := by
+  have : ∀ d : List (ℕ × α),
+      (pairs.map fun p => (p.1, p.2 * c)).foldl (fun d p => Kinetics.dset d p.1 p.2) (scaleV c d) =
+        scaleV c (pairs.foldl (fun d p => Kinetics.dset d p.1 p.2) d) := by
+    induction pairs with
+    | nil => intro d; rfl
+    | cons p t ih => intro d; simp only [List.map_cons, List.foldl_cons, dset_scaleV, ih]
+  exact this []
+
+theorem accumulate_scaleV (c : α) (res items : List (ℕ × α)) :
+    Kinetics.accumulate (scaleV c res) (scaleV c items) = scaleV c (Kinetics.accumulate res items) := by
+  unfold Kinetics.accumulate
+  induction items generalizing res with
+  | nil => rfl
+  | cons p t ih =>
+    simp only [scaleV, List.map_cons, List.foldl_cons] at ih ⊢
+    have := dacc_scaleV c res p.1 p.2
+    simp only [scaleV] at this
+    rw [this, ih]
+
+theorem dget?_scaleV (c : α) (d : List (ℕ × α)) (s : ℕ) :
+    Kinetics.dget? (scaleV c d) s = (Kinetics.dget? d s).map (· * c) := by
+  induction d with
+  | nil => rfl
+  | cons p t ih =>
+    obtain ⟨k, v⟩ := p
+    by_cases h : k = s
+    · simp [scaleV, Kinetics.dget?, h]
+    · simp only [scaleV, List.map_cons, Kinetics.dget?, h, if_false] at ih ⊢
+      exact ih
+
+theorem readAll_scaleV (c : α) (d : List (ℕ × α)) (names : List ℕ) :
+    readAll (scaleV c d) names = (readAll d names).map (List.map (· * c)) := by
+  induction names with
+  | nil => rfl
+  | cons s t ih =>
+    simp only [readAll, dget?_scaleV, ih]
+    cases Kinetics.dget? d s with
+    | none => rfl
+    | some e => cases readAll d t <;> rfl
+
+/-- two reactions with the same dictionaries whose mass-action rates differ by the factor `c` -/
+theorem rxnRate_scale (vars vars' : ℕ → α) (r r' : Kinetics.Reaction ℕ α) (c : α)
+    (h1 : r'.reac = r.reac) (h2 : r'.prod = r.prod) (h3 : r'.inactReac = r.inactReac) (h4 : r'.inactProd = r.inactProd)
+    (hm : Kinetics.massAction vars' r' = Kinetics.massAction vars r * c) :
+    Kinetics.rxnRate vars' r' (Kinetics.keysFor none r') = scaleV c (Kinetics.rxnRate vars r (Kinetics.keysFor none r)) := by
+  have hk : Kinetics.keysFor none r' = Kinetics.keysFor none r := by simp [Kinetics.keysFor, Kinetics.rxnKeys, h1, h2, h3, h4]
+  have hn : ∀ k, Kinetics.netStoich r' k = Kinetics.netStoich r k := by intro k; simp [Kinetics.netStoich, h1, h2, h3, h4]
+  rw [hk]
+  unfold Kinetics.rxnRate
+  rw [← dictOf_scaleV, List.map_map]
+  congr 1
+  apply List.map_congr_left
+  intro k _
+  simp only [Function.comp, hm, hn]
+  congr 1; ring
+
+theorem sysRates_scale (vars vars' : ℕ → α) (rs rs' : List (Kinetics.Reaction ℕ α)) (c : α)
+    (h : List.Forall₂ (fun (r' r : Kinetics.Reaction ℕ α) => r'.reac = r.reac ∧ r'.prod = r.prod ∧ r'.inactReac = r.inactReac ∧
+      r'.inactProd = r.inactProd ∧ Kinetics.massAction vars' r' = Kinetics.massAction vars r * c) rs' rs) :
+    Kinetics.sysRates vars' rs' none none = scaleV c (Kinetics.sysRates vars rs none none) := by
+  simp only [Kinetics.sysRates, Kinetics.sysRatesNoFeed]
+  have : ∀ d : List (ℕ × α),
+      rs'.foldl (fun result r => Kinetics.accumulate result (Kinetics.rxnRate vars' r (Kinetics.keysFor none r))) (scaleV c d) =
+      scaleV c (rs.foldl (fun result r => Kinetics.accumulate result (Kinetics.rxnRate vars r (Kinetics.keysFor none r))) d) := by
+    induction h with
+    | nil => intro d; rfl
+    | cons hr _ ih =>
+      intro d
+      obtain ⟨h1, h2, h3, h4, hm⟩ := hr
+      simp only [List.foldl_cons, rxnRate_scale vars vars' _ _ c h1 h2 h3 h4 hm, accumulate_scaleV, ih]
+  exact this []
+
+theorem scaleV_length (c : α) (d : List (ℕ × α)) : (scaleV c d).length = d.length := by simp [scaleV]
+
+
+theorem getD_map_div (y : List α) (C : α) (i : ℕ) : (y.map (· / C)).getD i 0 = y.getD i 0 / C := by
+  simp only [List.getD_eq_getElem?_getD, List.getElem?_map]
+  cases y[i]? <;> simp
+
+theorem prod_div_pow' (f : ℕ → α) (reac : List (ℕ × ℕ)) (c : α) :
+    (reac.map fun p => (f p.1 / c) ^ p.2).prod = (reac.map fun p => f p.1 ^ p.2).prod / c ^ (reac.map (·.2)).sum := by
+  induction reac with
+  | nil => simp
+  | cons a r ih =>
+    simp only [List.map_cons, List.prod_cons, List.sum_cons, pow_add]
+    rw [ih, div_pow, div_mul_div_comm]
+
+/-- one reaction: the unitless mass-action rate in registry units is the SI rate times `time_unit / conc_unit` -/
+theorem massAction_scale (reg : Registry α) (hreg : RegistryWF reg) (k : PyVal α) (r : Rxn)
     (hk : k.dims = rateConstDims r.order) (y : List α) :
-    (match lookupConcs (y.map (· / regProd reg concDims)) r.reac with
-      | .error e => .error e
-      | .ok cs => .ok (massActionRate (k.si / regProd reg k.dims) cs)) =
-    (match lookupConcs y r.reac with
-      | .error e => (.error e : Except Err α)
-      | .ok cs => .ok (massActionRate k.si cs)).map (· * (regProd reg timeDims / regProd reg concDims)) := by
+    Kinetics.massAction (fun i => (y.map (· / regProd reg concDims)).getD i 0) (r.toKin (k.si / regProd reg k.dims)) =
+      Kinetics.massAction (fun i => y.getD i 0) (r.toKin k.si) * (regProd reg timeDims / regProd reg concDims) := by
   have hC := regProd_ne_zero reg (registryWF_si_ne hreg) concDims
-  have hT := regProd_ne_zero reg (registryWF_si_ne hreg) timeDims
-  rw [lookupConcs_map]
-  cases hl : lookupConcs y r.reac with
-  | error e => rfl
-  | ok cs =>
-    have hsum : ((cs.map (·.2)).sum : ℕ) = (r.reac.map (·.2)).sum := by rw [lookupConcs_coeffs y r.reac cs hl]
-    simp only [Except.map]
-    rw [massActionRate_scale, hk, regProd_rateConst reg hreg, Rxn.order, hsum, div_eq_mul_inv (massActionRate k.si cs),
-      unit_algebra _ _ hC hT]
+  simp only [Kinetics.massAction, Kinetics.activeConcProd_eq, Kinetics.concProd, Rxn.toKin, getD_map_div]
+  rw [prod_div_pow' (fun i => y.getD i 0) r.reac, hk, regProd_rateConst reg hreg, Rxn.order, div_mul_div_comm, div_eq_mul_inv, unit_algebra _ _ hC]
 
-theorem reactionRates_scale (reg : Registry α) (hreg : RegistryWF reg) (ks : List (PyVal α)) (rxns : List Rxn)
+
+theorem toKin_forall₂ (reg : Registry α) (hreg : RegistryWF reg) (ks : List (PyVal α)) (rxns : List Rxn)
     (hkr : List.Forall₂ (fun k r => k.dims = rateConstDims r.order) ks rxns) (y : List α) :
-    reactionRates (ks.map fun k => k.si / regProd reg k.dims) rxns (y.map (· / regProd reg concDims)) =
-      (reactionRates (ks.map PyVal.si) rxns y).map (List.map (· * (regProd reg timeDims / regProd reg concDims))) := by
-  simp only [reactionRates, List.zip_map_left, mapExcept_map]
-  apply mapExcept_rel
-  rintro ⟨k, r⟩ hmem
-  have hk := (List.forall₂_iff_zip.mp hkr).2 hmem
-  exact rate_scale reg hreg k r hk y
+    List.Forall₂ (fun (r' r : Kinetics.Reaction ℕ α) => r'.reac = r.reac ∧ r'.prod = r.prod ∧ r'.inactReac = r.inactReac ∧
+      r'.inactProd = r.inactProd ∧
+      Kinetics.massAction (fun i => (y.map (· / regProd reg concDims)).getD i 0) r' =
+        Kinetics.massAction (fun i => y.getD i 0) r * (regProd reg timeDims / regProd reg concDims))
+      (((ks.map fun k => k.si / regProd reg k.dims).zip rxns).map fun kr => kr.2.toKin kr.1)
+      (((ks.map PyVal.si).zip rxns).map fun kr => kr.2.toKin kr.1) := by
+  induction hkr with
+  | nil => exact List.Forall₂.nil
+  | @cons k r _ _ hk _ ih =>
+    simp only [List.map_cons, List.zip_cons_cons]
+    exact List.Forall₂.cons ⟨rfl, rfl, rfl, rfl, massAction_scale reg hreg k r hk y⟩ ih
 
-
-theorem plainRhs_scale (ks ks' : List α) (rxns : List Rxn) (y y' : List α) (ns : ℕ) (c : α)
-    (h : reactionRates ks' rxns y' = (reactionRates ks rxns y).map (List.map (· * c))) :
-    plainRhs ks' rxns y' ns = (plainRhs ks rxns y ns).map (List.map (· * c)) := by
-  simp only [plainRhs, h]
-  cases reactionRates ks rxns y with
-  | error e => rfl
-  | ok rs => simp [Except.map, dCdt_scale]
+/-- the plain right-hand side (shared kinetics model + pyodesys' expression count) is homogeneous: registry units in,
+    SI result times `time_unit / conc_unit` out; errors (KeyError, the spectator ValueError) coincide -/
+theorem plainRhs_scale (reg : Registry α) (hreg : RegistryWF reg) (ks : List (PyVal α)) (rxns : List Rxn)
+    (hkr : List.Forall₂ (fun k r => k.dims = rateConstDims r.order) ks rxns) (y : List α) (ns : ℕ) :
+    plainRhs (ks.map fun k => k.si / regProd reg k.dims) rxns (y.map (· / regProd reg concDims)) ns =
+      (plainRhs (ks.map PyVal.si) rxns y ns).map (List.map (· * (regProd reg timeDims / regProd reg concDims))) := by
+  have hs := sysRates_scale (fun i => y.getD i 0) (fun i => (y.map (· / regProd reg concDims)).getD i 0) _ _ _
+    (toKin_forall₂ reg hreg ks rxns hkr y)
+  have hg : ((ks.map fun k => k.si / regProd reg k.dims).zip rxns).any
+        (fun kr => kr.2.reac.any fun p => decide ((y.map (· / regProd reg concDims)).length ≤ p.1)) =
+      ((ks.map PyVal.si).zip rxns).any (fun kr => kr.2.reac.any fun p => decide (y.length ≤ p.1)) := by
+    simp only [List.zip_map_left, List.any_map, List.length_map]
+    congr 1
+  simp only [plainRhs, Nat.cast_zero] at hs ⊢
+  rw [hg, hs, scaleV_length, readAll_scaleV]
+  split_ifs
+  · rfl
+  · rfl
+  · cases readAll _ (List.range ns) <;> rfl
 
 theorem mkOdeUnits_plain (reg : Registry α) (hreg : RegistryWF reg) :
     ∃ C T, mkOdeUnits reg [] true [] = .ok ⟨[], T, C⟩ ∧
@@ -512,8 +553,7 @@ theorem odeRhs_spec (reg : Registry α) (hreg : RegistryWF reg) (ks : List (PyVa
   have hmap : (y.map fun a => a.si / C.si) = (y.map PyVal.si).map (· / regProd reg concDims) := by
     simp [List.map_map, hCs]
   simp only [odeRhs, hou, hd, toArraysY, hys, hvals, hmap]
-  apply plainRhs_scale
-  exact reactionRates_scale reg hreg ks rxns (hk.imp fun _ _ h => h.2) _
+  exact plainRhs_scale reg hreg ks rxns (hk.imp fun _ _ h => h.2) _ ns
 
 
 /-! ### named parameters: `p_units` from `args_dimensionality` -/
@@ -606,8 +646,7 @@ theorem odeRhsNamed_spec (reg : Registry α) (hreg : RegistryWF reg) (p : List (
   have hks : zipToUnitless p us = .ok (p.map fun k => k.si / regProd reg k.dims) := by
     rw [zipToUnitless_spec p us (hpu.imp fun _ _ h => h.1), zipWith_div_eq reg p us (hpu.imp fun _ _ h => h.2)]
   simp only [odeRhsNamed, hou, toArraysY, toArraysP, hys, hks, hmap]
-  apply plainRhs_scale
-  exact reactionRates_scale reg hreg p rxns (hk.imp fun _ _ h => h.2) _
+  exact plainRhs_scale reg hreg p rxns (hk.imp fun _ _ h => h.2) _ ns
 
 
 /-! ### `to_arrays` followed by the post-processor -/
@@ -751,5 +790,262 @@ theorem validateTerm_spec [CharZero α] (k : PyVal α) (hk : k.WF) (cs : List (P
   by_cases h : k.dims = rateConstDims (((cs.map (·.2)).sum : ℕ) : ℤ)
   · rw [if_pos (hiff.mpr h), if_pos h]; rfl
   · rw [if_neg (mt hiff.mp h), if_neg h]; rfl
+
+
+/-! ### when does the right-hand side exist: pyodesys' expression count -/
+
+theorem nodup_dkeys_dacc {d : List (ℕ × α)} (h : (Kinetics.dkeys d).Nodup) (k : ℕ) (v : α) :
+    (Kinetics.dkeys (Kinetics.dacc d k v)).Nodup := by
+  induction d with
+  | nil => simp [Kinetics.dacc, Kinetics.dkeys]
+  | cons p t ih =>
+    obtain ⟨k', v'⟩ := p
+    unfold Kinetics.dacc
+    by_cases hk : k' = k
+    · simpa [hk, Kinetics.dkeys] using h
+    · simp only [hk, if_false]
+      simp only [Kinetics.dkeys, List.map_cons, List.nodup_cons] at h ⊢
+      refine ⟨?_, ih h.2⟩
+      intro hm
+      have := (Kinetics.mem_dkeys_dacc (d := t) (k := k) (v := v) (s := k')).mp hm
+      rcases this with h1 | h1
+      · exact h.1 h1
+      · exact hk h1
+
+theorem nodup_dkeys_accumulate (res items : List (ℕ × α)) (h : (Kinetics.dkeys res).Nodup) :
+    (Kinetics.dkeys (Kinetics.accumulate res items)).Nodup := by
+  unfold Kinetics.accumulate
+  induction items generalizing res with
+  | nil => exact h
+  | cons p t ih => exact ih _ (nodup_dkeys_dacc h p.1 p.2)
+
+theorem nodup_dkeys_sysRates (vars : ℕ → α) (rs : List (Kinetics.Reaction ℕ α)) :
+    (Kinetics.dkeys (Kinetics.sysRates vars rs none none)).Nodup := by
+  simp only [Kinetics.sysRates, Kinetics.sysRatesNoFeed]
+  have : ∀ d : List (ℕ × α), (Kinetics.dkeys d).Nodup →
+      (Kinetics.dkeys (rs.foldl (fun result r => Kinetics.accumulate result (Kinetics.rxnRate vars r (Kinetics.keysFor none r))) d)).Nodup := by
+    induction rs with
+    | nil => intro d h; exact h
+    | cons r t ih => intro d h; exact ih _ (nodup_dkeys_accumulate _ _ h)
+  exact this [] (by simp [Kinetics.dkeys])
+
+/-- substance `s` occurs (as reactant or product) in one of the reactions that reach the rate dictionary -/
+def Mentioned (ks : List α) (rxns : List Rxn) (s : ℕ) : Prop :=
+  ∃ kr ∈ ks.zip rxns, s ∈ kr.2.reac.map (·.1) ∨ s ∈ kr.2.prod.map (·.1)
+
+theorem mem_dkeys_rates (ks : List α) (rxns : List Rxn) (vars : ℕ → α) (s : ℕ) :
+    s ∈ Kinetics.dkeys (Kinetics.sysRates vars ((ks.zip rxns).map fun kr => kr.2.toKin kr.1) none none) ↔
+      Mentioned ks rxns s := by
+  simp only [Kinetics.sysRates, Kinetics.mem_dkeys_sysRatesNoFeed, Kinetics.keysFor, Kinetics.mem_rxnKeys, List.mem_map,
+    Mentioned]
+  constructor
+  · rintro ⟨r, ⟨kr, hkr, rfl⟩, h⟩
+    refine ⟨kr, hkr, ?_⟩
+    simpa [Rxn.toKin, Kinetics.dkeys] using h
+  · rintro ⟨kr, hkr, h⟩
+    refine ⟨_, ⟨kr, hkr, rfl⟩, ?_⟩
+    simpa [Rxn.toKin, Kinetics.dkeys] using h
+
+theorem readAll_ok (d : List (ℕ × α)) (names : List ℕ) (h : ∀ s ∈ names, s ∈ Kinetics.dkeys d) :
+    ∃ l, readAll d names = some l ∧ l.length = names.length := by
+  induction names with
+  | nil => exact ⟨[], rfl, rfl⟩
+  | cons s t ih =>
+    obtain ⟨l, hl, hlen⟩ := ih (fun x hx => h x (by simp [hx]))
+    have hs : Kinetics.dget? d s ≠ none := fun hn => (Kinetics.dget?_eq_none_iff.mp hn) (h s (by simp))
+    obtain ⟨e, he⟩ := Option.ne_none_iff_exists'.mp hs
+    exact ⟨e :: l, by simp [readAll, he, hl], by simp [hlen]⟩
+
+/-- **success characterisation**: the state has one entry per substance, every index is a substance, every substance
+    takes part in some reaction ⇒ the right-hand side exists and has one entry per substance -/
+theorem plainRhs_ok (ks : List α) (rxns : List Rxn) (y : List α) (ns : ℕ) (hy : y.length = ns)
+    (hrange : ∀ s, Mentioned ks rxns s → s < ns) (hcov : ∀ s, s < ns → Mentioned ks rxns s) :
+    ∃ l, plainRhs ks rxns y ns = .ok l ∧ l.length = ns := by
+  have hg : (ks.zip rxns).any (fun kr => kr.2.reac.any fun p => decide (y.length ≤ p.1)) = false := by
+    rw [List.any_eq_false]
+    intro kr hkr
+    simp only [List.any_eq_true, decide_eq_true_eq, not_exists, not_and, not_le]
+    intro p hp
+    rw [hy]
+    exact hrange p.1 ⟨kr, hkr, Or.inl (List.mem_map.mpr ⟨p, hp, rfl⟩)⟩
+  set rates := Kinetics.sysRates (fun i => y.getD i ((0 : ℕ) : α)) ((ks.zip rxns).map fun kr => kr.2.toKin kr.1) none none
+    with hrates
+  have hnd : (Kinetics.dkeys rates).Nodup := nodup_dkeys_sysRates _ _
+  have hmem : ∀ s, s ∈ Kinetics.dkeys rates ↔ s < ns := fun s =>
+    ⟨fun h => hrange s ((mem_dkeys_rates ks rxns _ s).mp h), fun h => (mem_dkeys_rates ks rxns _ s).mpr (hcov s h)⟩
+  have hperm : (Kinetics.dkeys rates).Perm (List.range ns) :=
+    (List.perm_ext_iff_of_nodup hnd (List.nodup_range)).mpr (fun s => by rw [hmem, List.mem_range])
+  have hlen : rates.length = ns := by
+    have := hperm.length_eq
+    simpa [Kinetics.dkeys] using this
+  obtain ⟨l, hl, hll⟩ := readAll_ok rates (List.range ns) (fun s hs => (hmem s).mpr (List.mem_range.mp hs))
+  refine ⟨l, ?_, by simpa using hll⟩
+  simp only [plainRhs, hg, ← hrates, hlen, hl]
+  simp
+
+/-- **the spectator case mirrors the code**: a substance of the system that takes part in no reaction makes
+    `get_odesys` raise ValueError (pyodesys: "Callback returned unexpected number of expressions"); no silent zero -/
+theorem plainRhs_spectator (ks : List α) (rxns : List Rxn) (y : List α) (ns : ℕ) (hy : y.length = ns)
+    (hrange : ∀ s, Mentioned ks rxns s → s < ns) (s : ℕ) (hs : s < ns) (hspec : ¬ Mentioned ks rxns s) :
+    plainRhs ks rxns y ns = .error .valueError := by
+  have hg : (ks.zip rxns).any (fun kr => kr.2.reac.any fun p => decide (y.length ≤ p.1)) = false := by
+    rw [List.any_eq_false]
+    intro kr hkr
+    simp only [List.any_eq_true, decide_eq_true_eq, not_exists, not_and, not_le]
+    intro p hp
+    rw [hy]
+    exact hrange p.1 ⟨kr, hkr, Or.inl (List.mem_map.mpr ⟨p, hp, rfl⟩)⟩
+  set rates := Kinetics.sysRates (fun i => y.getD i ((0 : ℕ) : α)) ((ks.zip rxns).map fun kr => kr.2.toKin kr.1) none none
+    with hrates
+  have hnd : (Kinetics.dkeys rates).Nodup := nodup_dkeys_sysRates _ _
+  have hsub : Kinetics.dkeys rates ⊆ (List.range ns).erase s := by
+    intro x hx
+    have hm := (mem_dkeys_rates ks rxns _ x).mp hx
+    have hne : x ≠ s := fun e => hspec (e ▸ hm)
+    exact (List.mem_erase_of_ne hne).mpr (List.mem_range.mpr (hrange x hm))
+  have hlen : rates.length < ns := by
+    have h1 := (List.subperm_of_subset hnd hsub).length_le
+    have h2 : ((List.range ns).erase s).length = ns - 1 := by
+      rw [List.length_erase_of_mem (List.mem_range.mpr hs), List.length_range]
+    have : (Kinetics.dkeys rates).length = rates.length := by simp [Kinetics.dkeys]
+    omega
+  simp only [plainRhs, hg, ← hrates]
+  have : rates.length ≠ ns := by omega
+  simp [this]
+
+
+/-! ### `Equilibrium.as_reactions` -/
+
+theorem plain_parameter_accepted (x : α) (order : ℤ) : reactionCheck (.num x) order = .ok () := rfl
+
+theorem reactionCheck_ok_dims [CharZero α] (v : PyVal α) (hv : v.WF) (order : ℤ) (h : reactionCheck v order = .ok ()) :
+    ∀ q, v = .qty q → q.unit.dims = rateConstDims order := by
+  intro q hq
+  subst hq
+  rw [reactionCheck_qty q hv] at h
+  by_contra hne
+  simp [hne] at h
+
+theorem standardConc_wf [CharZero α] (kf kb : Option (PyVal α)) (units : Bool) (c0 : PyVal α)
+    (h : standardConc kf kb units = .ok c0) : c0.WF ∧ (units = true → c0 = molarVal) ∧ (units = false → c0 = PyVal.one) := by
+  cases units with
+  | true =>
+    have h' : (Except.ok molarVal : Except Err (PyVal α)) = .ok c0 := by
+      simpa [standardConc, molar?_eq] using h
+    cases h'
+    exact ⟨molarVal_wf, fun _ => rfl, fun h => Bool.noConfusion h⟩
+  | false =>
+    by_cases hq : (kf.any PyVal.isQty || kb.any PyVal.isQty) = true
+    · simp [standardConc, hq] at h
+    · have h' : (Except.ok PyVal.one : Except Err (PyVal α)) = .ok c0 := by
+        simpa [standardConc, hq] using h
+      cases h'
+      exact ⟨by simp [PyVal.one, PyVal.WF], fun h => Bool.noConfusion h, fun _ => rfl⟩
+
+theorem ratePair_wf (K : PyVal α) (kf kb : Option (PyVal α)) (nf nb : ℤ) (c0 : PyVal α) (hK : K.WF) (hc0 : c0.WF)
+    (hf : ∀ f, kf = some f → f.WF) (hb : ∀ b, kb = some b → b.WF) (p : PyVal α × PyVal α)
+    (h : ratePair K kf kb nf nb c0 = .ok p) :
+    p.1.WF ∧ p.2.WF ∧
+    ((∃ b, kb = some b ∧ kf = none ∧ p.2 = b ∧ p.1.si = b.si * K.si * c0.si ^ (nb - nf)) ∨
+     (∃ f, kf = some f ∧ kb = none ∧ p.1 = f ∧ p.2.si = f.si / (K.si * c0.si ^ (nb - nf)))) := by
+  cases kf with
+  | none =>
+    cases kb with
+    | none => simp [ratePair] at h
+    | some b =>
+      simp only [ratePair] at h
+      cases h
+      have hb' := hb b rfl
+      exact ⟨PyVal.mul_wf (PyVal.mul_wf hb' hK) (PyVal.pow_wf hc0 _), hb',
+        Or.inl ⟨b, rfl, rfl, rfl, by simp [PyVal.mul_si, PyVal.pow_si]⟩⟩
+  | some f =>
+    cases kb with
+    | none =>
+      simp only [ratePair] at h
+      cases h
+      have hf' := hf f rfl
+      exact ⟨hf', PyVal.div_wf hf' (PyVal.mul_wf hK (PyVal.pow_wf hc0 _)),
+        Or.inr ⟨f, rfl, rfl, rfl, by simp [PyVal.div_si, PyVal.mul_si, PyVal.pow_si]⟩⟩
+    | some b => simp [ratePair] at h
+
+theorem checkPair_ok [CharZero α] (nf nb : ℤ) (f b : PyVal α) (hf : f.WF) (hb : b.WF) (p : PyVal α × PyVal α)
+    (h : checkPair nf nb f b = .ok p) :
+    p = (f, b) ∧ reactionCheck f nf = .ok () ∧ reactionCheck b nb = .ok () ∧
+    (∀ q, f = .qty q → q.unit.dims = rateConstDims nf) ∧ (∀ q, b = .qty q → q.unit.dims = rateConstDims nb) := by
+  simp only [checkPair] at h
+  cases h1 : reactionCheck f nf with
+  | error e => simp [h1] at h
+  | ok u =>
+    cases h2 : reactionCheck b nb with
+    | error e => simp [h1, h2] at h
+    | ok u' =>
+      simp [h1, h2] at h
+      exact ⟨h.symm, rfl, rfl, reactionCheck_ok_dims _ hf nf h1, reactionCheck_ok_dims _ hb nb h2⟩
+
+/-- whatever `as_reactions` returns went through the constructor's unit check: each rate constant is either not a
+    Quantity or has the dimension its own reaction requires (forward: order `nf`, backward: order `nb`); and the two
+    constants are related by `K · c0^(nb−nf)` -/
+theorem asReactions_checked [CharZero α] (K : PyVal α) (kf kb : Option (PyVal α)) (nf nb : ℤ) (units : Bool)
+    (hK : K.WF) (hf : ∀ f, kf = some f → f.WF) (hb : ∀ b, kb = some b → b.WF) (f b : PyVal α)
+    (h : asReactions K kf kb nf nb units = .ok (f, b)) :
+    (∀ q, f = .qty q → q.unit.dims = rateConstDims nf) ∧ (∀ q, b = .qty q → q.unit.dims = rateConstDims nb) ∧
+    reactionCheck f nf = .ok () ∧ reactionCheck b nb = .ok () ∧
+    ∃ c0 : α, (units = true → c0 = 1000) ∧ (units = false → c0 = 1) ∧
+      ((kf = none ∧ f.si = b.si * K.si * c0 ^ (nb - nf)) ∨ (kb = none ∧ b.si = f.si / (K.si * c0 ^ (nb - nf)))) := by
+  simp only [asReactions] at h
+  cases hc : standardConc kf kb units with
+  | error e => simp [hc] at h
+  | ok c0 =>
+    obtain ⟨hc0, hu1, hu2⟩ := standardConc_wf kf kb units c0 hc
+    cases hp : ratePair K kf kb nf nb c0 with
+    | error e => simp [hc, hp] at h
+    | ok p =>
+      simp only [hc, hp] at h
+      obtain ⟨hw1, hw2, hrel⟩ := ratePair_wf K kf kb nf nb c0 hK hc0 hf hb p hp
+      obtain ⟨he, h1, h2, h3, h4⟩ := checkPair_ok nf nb p.1 p.2 hw1 hw2 (f, b) h
+      have e1 : f = p.1 := (Prod.mk.inj he).1
+      have e2 : b = p.2 := (Prod.mk.inj he).2
+      subst e1; subst e2
+      refine ⟨h3, h4, h1, h2, c0.si, ?_, ?_, ?_⟩
+      · intro hu; rw [hu1 hu]; simp
+      · intro hu; rw [hu2 hu]; simp [PyVal.one]
+      · rcases hrel with ⟨b', _, hkf, hb2, hsi⟩ | ⟨f', _, hkb, hf2, hsi⟩
+        · exact Or.inl ⟨hkf, by rw [hsi, hb2]⟩
+        · exact Or.inr ⟨hkb, by rw [hsi, hf2]⟩
+
+
+/-- substance `s` occurs as reactant or product of one of the reactions -/
+def Occurs (rxns : List Rxn) (s : ℕ) : Prop := ∃ r ∈ rxns, s ∈ r.reac.map (·.1) ∨ s ∈ r.prod.map (·.1)
+
+theorem mentioned_iff_occurs {β : Type} {R : β → Rxn → Prop} {ks : List β} {rxns : List Rxn}
+    (h : List.Forall₂ R ks rxns) (f : β → α) (s : ℕ) : Mentioned (ks.map f) rxns s ↔ Occurs rxns s := by
+  induction h with
+  | nil => simp [Mentioned, Occurs]
+  | @cons k r _ _ _ _ ih =>
+    simp only [Mentioned, Occurs, List.map_cons, List.zip_cons_cons, List.mem_cons, exists_eq_or_imp] at ih ⊢
+    rw [ih]
+
+theorem odeRhs_ok (reg : Registry α) (hreg : RegistryWF reg) (ks : List (PyVal α)) (rxns : List Rxn)
+    (y : List (PyVal α)) (ns : ℕ)
+    (hk : List.Forall₂ (fun k r => k.WF ∧ k.dims = rateConstDims r.order) ks rxns)
+    (hy : ∀ c ∈ y, c.WF ∧ c.dims = concDims) (hlen : y.length = ns)
+    (hrange : ∀ s, Occurs rxns s → s < ns) (hcov : ∀ s, s < ns → Occurs rxns s) :
+    ∃ f, odeRhs reg ks rxns y ns = .ok f ∧ f.length = ns := by
+  obtain ⟨l, hl, hll⟩ := plainRhs_ok (ks.map PyVal.si) rxns (y.map PyVal.si) ns (by simpa using hlen)
+    (fun s hs => hrange s ((mentioned_iff_occurs hk _ s).mp hs)) (fun s hs => (mentioned_iff_occurs hk _ s).mpr (hcov s hs))
+  rw [odeRhs_spec reg hreg ks rxns y ns hk hy, hl]
+  exact ⟨_, rfl, by simpa using hll⟩
+
+theorem odeRhs_spectator (reg : Registry α) (hreg : RegistryWF reg) (ks : List (PyVal α)) (rxns : List Rxn)
+    (y : List (PyVal α)) (ns : ℕ)
+    (hk : List.Forall₂ (fun k r => k.WF ∧ k.dims = rateConstDims r.order) ks rxns)
+    (hy : ∀ c ∈ y, c.WF ∧ c.dims = concDims) (hlen : y.length = ns)
+    (hrange : ∀ s, Occurs rxns s → s < ns) (s : ℕ) (hs : s < ns) (hspec : ¬ Occurs rxns s) :
+    odeRhs reg ks rxns y ns = .error .valueError := by
+  have := plainRhs_spectator (ks.map PyVal.si) rxns (y.map PyVal.si) ns (by simpa using hlen)
+    (fun s hs => hrange s ((mentioned_iff_occurs hk _ s).mp hs)) s hs
+    (fun hm => hspec ((mentioned_iff_occurs hk _ s).mp hm))
+  rw [odeRhs_spec reg hreg ks rxns y ns hk hy, this]
+  rfl
 
 end ChemModel.KinUnits
